@@ -57,6 +57,10 @@ def offset (self off : Word) : Except String Word :=
 /-- `is_marked as usize` -/
 def boolWord (b : Bool) : Word := if b then 1#64 else 0#64
 
+/-- `boolWord` in the form the bit-vector decision procedure understands -/
+theorem boolWord_eq (b : Bool) : boolWord b = BitVec.setWidth 64 (BitVec.ofBool b) := by
+  cases b <;> rfl
+
 /-- `HeaderWord::compute_word(vtblptr, shape_base, is_marked, is_remembered)`; also
 `Header::compute_header_word`. Note that `compressed` is NOT masked to 32 bits. -/
 def computeWord (vtblptr shapeBase : Word) (isMarked isRemembered : Bool) : Except String Word := do
